@@ -5,6 +5,34 @@ from .adapters.world import WorldAdapter
 from .tla import FD
 
 
+def shadow_queue(ad, pending, op, args, obs):
+    """Postponed callbacks after the call, read from the real world's queue (white box: used only to choose which
+    postponed callback to make raise; the verdict never depends on it)."""
+    from .adapters.world import modelid
+    w = ad.env.w
+    out = []
+    try:
+        q = list(w._event_queue)
+    except Exception:
+        return []
+    n_old = len(pending) if op not in ('SetEnabled', 'SetEnabledFault', 'Clear') else 0
+    old = pending[len(pending) - len(q):] if op in ('SetEnabledFault',) else pending
+    for i, (name, a, _kw) in enumerate(q):
+        if name == 'on_single_dispatch':
+            cb, who = a[0], getattr(a[1], 'name', '?')
+            ent = modelid(a[2]) if len(a) > 2 else -1
+        else:
+            cb, who, ent = name, '-', 0
+        if op == 'SetEnabledFault':
+            first = old[i][3] if i < len(old) else True
+        elif i < n_old:
+            first = pending[i][3]
+        else:
+            first = (i == n_old)
+        out.append((cb, who, ent, first))
+    return out
+
+
 def record(desper, K, seed, n_traces, n_calls):
     rnd = random.Random(seed)
     ad = WorldAdapter(desper, K)
@@ -21,10 +49,12 @@ def record(desper, K, seed, n_traces, n_calls):
         attached = {}        # comp -> entity
         rows = {}            # entity -> set(comps)
         dead = set()
+        ghosts = set()
         plist = []
         enabled = True
         qlen = 0
         auto_next = 1
+        pending = []         # shadow of the postponed callbacks: (cb, who, ent, first-of-its-operation)
         events = []
         for _k in range(n_calls):
             free = [c for c in comps_all if c not in attached]
@@ -41,6 +71,8 @@ def record(desper, K, seed, n_traces, n_calls):
                 cands += [('AddComponent', (rnd.choice(ids), rnd.choice(free)))] * 4
             if 'remove' in acts and (enabled or qlen + 1 <= K['MaxQ']):
                 cands += [('RemoveComponent', (rnd.choice(sorted(rows) or ids), rnd.choice(types)))] * 3
+            if 'ghost' in acts and rnd.random() < 0.05:
+                cands += [('DeleteDeferred', (rnd.choice([i for i in ids if i not in rows] or ids),))] * 3
             if 'delete' in acts and rows:
                 cands += [('DeleteDeferred', (rnd.choice(sorted(rows)),))] * 2
                 if enabled or qlen + 3 <= K['MaxQ']:
@@ -52,24 +84,37 @@ def record(desper, K, seed, n_traces, n_calls):
                 cands += [('RemoveProcessor', (rnd.choice(ptypes),))]
             if 'process' in acts and (enabled or qlen + 3 <= K['MaxQ']):
                 cands += [('Process', (rnd.choice(sorted(K['Dts'])),))] * 3
-                if 'fault' in acts:
+                if 'fault' in acts and not ghosts:
                     if plist:
                         cands += [('ProcessProcFault', (1, rnd.choice(plist)))]
                     victims = [c for e in dead & set(rows) for c in rows[e] if 'on_remove' in K['Decl'][c]]
                     if victims and enabled:
                         cands += [('ProcessRemoveFault', (1, rnd.choice(victims)))] * 2
+                        others = [e for e in rows if attached[victims[0]] != e]
+                        if others:
+                            cands += [('ProcessKiller', (1, victims[0], rnd.choice(sorted(others))))] * 2
             if 'clear' in acts and rnd.random() < 0.1:
                 cands += [('Clear', ())]
             if 'toggle' in acts:
                 cands += [('SetEnabled', (not enabled,))] * 2
+                if 'fault' in acts and not enabled and pending:
+                    # a postponed callback that is alone in its operation batch raises during the release
+                    ok = [i for i, it in enumerate(pending) if it[0] in ('on_add', 'on_remove') and it[1] in K['Comps'] and it[3]
+                          and (i + 1 == len(pending) or pending[i + 1][3])
+                          and not any(p[0] == it[0] and p[1] == it[1] for p in pending[:i])]
+                    if ok:
+                        cands += [('SetEnabledFault', (rnd.choice(ok) + 1,))] * 2
             if not cands:
                 break
             op, args = rnd.choice(cands)
-            obs = ad.step(op, args, None)
+            pre = {'queue': pending} if op == 'SetEnabledFault' else None
+            obs = ad.step(op, args, pre)
+            pending = shadow_queue(ad, pending, op, args, obs)
             # shadow state from the observations (for the generator's preconditions only)
             rows = {e: set(cs) for e, cs in obs['comps'].items() if cs}
             attached = {c: e for e, cs in rows.items() for c in cs}
             dead = {e for e in rows if not obs['exists'][e]}
+            ghosts = set(obs['wb_tables'][2]) - set(rows) if 'wb_tables' in obs else set()
             plist = list(obs['processors'])
             enabled = obs['enabled']
             qlen = obs.get('wb_queue_len', 0)
@@ -77,8 +122,8 @@ def record(desper, K, seed, n_traces, n_calls):
                 auto_next = obs['ret'][1] + 1
             if op == 'Clear':
                 auto_next = 1
-            a = list(args) + ['-', '-']
-            ev = {'op': op, 'a1': a[0], 'a2': list(a[1]) if isinstance(a[1], tuple) else a[1],
+            a = list(args) + ['-', '-', '-']
+            ev = {'op': op, 'a1': a[0], 'a2': list(a[1]) if isinstance(a[1], tuple) else a[1], 'a3': a[2],
                   'ret': list(obs['ret']),
                   'comps': [[e, list(cs)] for e, cs in sorted(obs['comps'].items())],
                   'exists': [[e, v] for e, v in sorted(obs['exists'].items())],
